@@ -1,6 +1,25 @@
 import subprocess, sys
 REPO="/repo"
 CASES=[
+ # --- fourth batch: the round-5 rules (T8, W10, S8, P6, L5, D5, K10, Q7, B8, T-sweep, G6, M6, J9, U5, B6) ---
+ ("C03","aldor/aldor/src/genc.c","\tif (foamProgUsesFluids(gcvProg)) {\n\t\treturn ccoNew(CCO_Compound, 1, ccoMany2(gc0PopFluid(), ret));\n\t}\n\telse return ret;","\tif (!foamProgUsesFluids(gcvProg))\n\t\treturn ret;\n\treturn ccoNew(CCO_Compound, 1, ccoMany2(gc0PopFluid(), ret));"),
+ ("C03","aldor/aldor/src/genc.c","\tif (foamProgUsesFluids(gcvProg)) {\n\t\treturn ccoNew(CCO_Compound, 1, ccoMany2(gc0PopFluid(), ret));\n\t}\n\telse return ret;","\tif (foamProgUsesFluids(gcvProg)) {\n\t\tCCode pop = gc0PopFluid();\n\t\tret = ccoNew(CCO_Compound, 1, ccoMany2(pop, ret));\n\t}\n\treturn ret;"),
+ ("C05","aldor/aldor/src/archive.c","\tif (!*endp || *endp == ' ') return;","\tif (*endp == '\\0' || *endp == ' ') return;"),
+ ("C05","aldor/aldor/src/archive.c","\tif (!*endp || *endp == ' ') return;\n\tcomsgError(NULL, ALDOR_E_ArBadNumber, arToString(ar));\n\tarPosition(ar) = 0;\n\tarItem(ar) = 0;\n\t*plong = 0;","\tif (*endp && *endp != ' ') {\n\t\tcomsgError(NULL, ALDOR_E_ArBadNumber, arToString(ar));\n\t\tarPosition(ar) = 0;\n\t\tarItem(ar) = 0;\n\t\t*plong = 0;\n\t}"),
+ ("C06","aldor/aldor/src/ti_tdn.c","\tTForm tf = tiGetTForm(stab, absyn->abRestrictTo.type);\n\n\tif (!tfSatReturn(tf, type)) {\n\t\tterrorNotUniqueType(ALDOR_E_TinExprMeans,\n\t\t\t            absyn, type, abTPoss(absyn));\n\t\treturn false;\n\t}\n\ttitdn(stab, absyn->abRestrictTo.expr, tf);\n\tabTUnique(absyn) = tf;\n\treturn true;","\tTForm tf = tiGetTForm(stab, absyn->abRestrictTo.type);\n\n\tif (tfSatReturn(tf, type)) {\n\t\ttitdn(stab, absyn->abRestrictTo.expr, tf);\n\t\tabTUnique(absyn) = tf;\n\t\treturn true;\n\t}\n\tterrorNotUniqueType(ALDOR_E_TinExprMeans,\n\t\t\t    absyn, type, abTPoss(absyn));\n\treturn false;"),
+ ("C06","aldor/aldor/src/ti_tdn.c","\treturn titdn0Generic(stab, absyn, tfBoolean);\n}\n\n/***************************************************************************\n *\n * :: Hide:","\ttitdn0Generic(stab, absyn, tfBoolean);\n\treturn true;\n}\n\n/***************************************************************************\n *\n * :: Hide:"),
+ ("C15","aldor/aldor/src/include.c","\t\t\tfileState = o_fileState;\n\t\t\tsll = inclError(ALDOR_E_InclInfinite, s);\n\t\t\tstrFree(s);","\t\t\tfileState = o_fileState;\n\t\t\t{ sll = inclError(ALDOR_E_InclInfinite, s); }\n\t\t\tstrFree(s);"),
+ ("C19","aldor/aldor/src/xfloat.c","\t\t*psign     = (w0 & XDF_SignMask) != 0;","\t\t*psign     = (w0 & XDF_SignMask) ? true : false;"),
+ ("C08","aldor/aldor/src/lib.c","\t\tlibIndexSect(lib, i).name    = LIB_INDEX_LIMIT;\n\t\tlibIndexSect(lib, i).offset  = 0;\n\t\tlibIndexSect(lib, i).length  = 0;","\t\tlibIndexSect(lib, i).length  = 0;\n\t\tlibIndexSect(lib, i).offset  = 0;\n\t\tlibIndexSect(lib, i).name    = LIB_INDEX_LIMIT;"),
+ ("C07","aldor/aldor/src/macex.c","\t\tabActive = listCons(AbSyn) (ab, abActive);\n\t\tmacActive = listCons(AbSyn) (mac, macActive);","\t\tmacActive = listCons(AbSyn) (mac, macActive);\n\t\tabActive = listCons(AbSyn) (ab, abActive);"),
+ ("C02","aldor/aldor/src/of_jflow.c","\t\t\tnlhs = foamArgc(lhs);\n\t\t\tlhsv = lhs->foamValues.argv;","\t\t\tlhsv = lhs->foamValues.argv;\n\t\t\tnlhs = foamArgc(lhs);"),
+ ("C04","aldor/aldor/src/dword.c","\tr  = MODB(a + b);\n\tko = r < a;","\tr  = MODB(b + a);\n\tko = r < b;"),
+ ("C10","aldor/aldor/src/store.c","\t\t\t\t\tif (QmInfoMark(nqmtag)) {\n\t\t\t\t\t\tint N = nqmno+nnq;","\t\t\t\t\tif (QmInfoMark(nqmtag) != 0) {\n\t\t\t\t\t\tint N = nqmno+nnq;"),
+ ("C09","aldor/aldor/src/store.c","\t\tif (ptrEQ(pp, hi-1)) {","\t\tif (ptrEQ(hi-1, pp)) {"),
+ ("C16","aldor/aldor/src/genc.c","\t  case FOAM_Byte:\n\t  case FOAM_SFlo:\n\t  case FOAM_DFlo:\n\t  case FOAM_HInt:\n\t  case FOAM_Char:\n\t  case FOAM_Arb:\n\t\treturn true;","\t  case FOAM_Char:\n\t  case FOAM_HInt:\n\t  case FOAM_DFlo:\n\t  case FOAM_SFlo:\n\t  case FOAM_Byte:\n\t  case FOAM_Arb:\n\t\treturn true;"),
+ ("C12","aldor/aldor/src/java/genjava.c","\textraArg = listElt(JavaCode)(args, 2);\n\targs = listList(JavaCode)(2, car(args), car(cdr(args)));","\textraArg = car(cdr(cdr(args)));\n\targs = listList(JavaCode)(2, listElt(JavaCode)(args, 0), listElt(JavaCode)(args, 1));"),
+ ("C13","aldor/aldor/src/scobind.c","\treturn ab && (!abSyme(ab) || isNewSyme(abSyme(ab)));","\treturn ab != NULL && (abSyme(ab) == NULL || isNewSyme(abSyme(ab)));"),
+ ("C04","aldor/aldor/src/fint.c","(FiBool) (isdigit(expr1.fiChar) != 0);","(FiBool) !!isdigit(expr1.fiChar);"),
  # --- third batch: restructurings; exit 0 or exit 2 (analysis broken) are acceptable, exit 1 is a false alarm ---
  ("C18","aldor/aldor/src/file.c","\tint\tfailed = ferror(file);\n\n\tif (fclose(file) != 0) failed = 1;\n\tif (failed) (void) (*fileError)(fn, osIoWrMode);","\tint\tbad = ferror(file);\n\tint\tclosed = fclose(file);\n\n\tif (bad || closed != 0) (void) (*fileError)(fn, osIoWrMode);"),
  ("C07","aldor/aldor/src/include.c","\t\t\tif (ifState != NoIf) \n\t\t\t*psll = listNConcat(SrcLine)\n\t\t\t(inclError(ALDOR_E_InclIfEof), *psll);\n\t\t\treturn false;","\t\t\tif (ifState == NoIf) return false;\n\t\t\t*psll = listNConcat(SrcLine)\n\t\t\t(inclError(ALDOR_E_InclIfEof), *psll);\n\t\t\treturn false;"),
